@@ -1,4 +1,5 @@
 import Norad.Lemmas.Par
+import Norad.Spec.ParSource
 /-!
 # C19 — parallel loading and saving give exactly the sequential results
 
@@ -19,6 +20,9 @@ Statement of the property, clause by clause:
 
 All theorems hold for both variants of what `get` returns after taking the write lock (`retStored`):
 the requested `Arc` (the code as it is) or the stored one.
+
+* source-level tie: `source_par_bodies_equal_seq`, `source_par_sites_complete`, `source_results_order_restored`,
+  `source_shared_state_matches_model`, `source_get_is_two_step` (about the tree under check, re-extracted every run)
 
 What is **not** a theorem here (see docs/notes/C19.md): the schedules are those of the model — atomic
 lock sections interleaved in any order, any assignment of files to any number of workers — not the
@@ -208,6 +212,66 @@ theorem par_save_eq_seq_counterexample :
   intro h
   have := congrFun h ['f']
   simp [saveIn, writeEntry] at this
+
+/-! ## source-level tie (DESIGN 11.8)
+
+`Generated.ParSites` is re-extracted from `src/**/*.rs` of the tree under check on every run
+(`tools/extract_par_sites.py`): every pair of items under `cfg(feature = "rayon")` / `cfg(not(feature = "rayon"))`,
+token lists un-normalised.  The theorems below are about what the code says NOW; a section whose anchor is gone uses
+its pinned copy (evidence: `extraction: pinned`) and the behavioural correspondence is then the only tie. -/
+
+section source
+open Generated.ParSites ParSource
+
+/-- **every site's rayon variant is its sequential variant** once the known differences are erased (`norm`:
+    `par_iter`→`iter`, `into_par_iter`→`into_iter`, `.par_bridge()`, `let mut`, `RwLock`/`RefCell` and
+    lock-vs-borrow, `ParNameList`/`SeqNameList`).  Everything else a task does — the closure of the glyph loop, the
+    collector, the error path, `get`, `contains` — is either the same text for both builds or compared here. -/
+theorem source_par_bodies_equal_seq : allSites.all (fun s => norm s.par == norm s.seq) = true := by
+  decide +kernel
+
+/-- **the sites are exactly the model's parallel steps**: the pairs that introduce a parallel iteration are the
+    glyph loop of `Layer::load_impl` and of `Layer::save_with_options`, both over `contents`; the other pairs are
+    the four representation pairs of the name table; there is no pair anywhere else; the only rayon-only items
+    are the prelude import and a constructor that makes a new empty table per `NameList`; a rayon API word occurs
+    nowhere but in the import and the two steps. -/
+theorem source_par_sites_complete :
+    iterSites.map (fun s => (s.file, s.scope, s.iterated)) = modelParSteps.map (fun m => (m.1, m.2.1, m.2.2.1)) ∧
+    nameTable.map (fun s => (s.file, s.scope, s.kind, s.name)) = modelTablePairs ∧
+    (layerLoad ++ layerSave).length = modelParSteps.length ∧
+    otherSites = [] ∧ oneSided = modelOneSided ∧ apiWords = modelApiWords := by decide
+
+/-- **results come out in a schedule-independent order**: every parallel step gathers into an ordered map (the
+    model's collector `layerOf` / `sortedLayerOf` is order-independent exactly because it is keyed: `layerOf_perm`,
+    `sortedLayerOf_perm`), gathers nothing (save: the effects commute, `par_save_eq_seq`), or re-sorts -/
+theorem source_results_order_restored : iterSites.all orderRestored = true := by decide
+
+/-- **the model's assumptions about a task hold of the source**: the shared statement of each step mentions, of all
+    shared state, exactly what the model gives a task (`names` = `Shared.set` on load; the glyph map, read-only, on
+    save; the name table is recognised by the type `&NameList` of the parameter; no `&mut` capture, no lock, atomic, static or `path_set`); a failing task ends the step through
+    `collect::<Result<..>>` / `try_for_each` (model: fails iff some task fails, `par_load_fails_iff_seq_fails`); and each step is
+    one the model treats as commutative (`modelParSteps` names the theorem) -/
+theorem source_shared_state_matches_model :
+    iterSites.map (fun s => (s.scope, s.touches)) = modelTouches ∧
+    iterSites.all (fun s => modelErrorForms.contains s.errorForm) = true ∧
+    modelParSteps.map (·.2.2.2) = ["par_load_eq_seq", "par_save_eq_seq"] := by decide
+
+/-- **`get` is the model's two atomic steps**: the table words of the rayon `impl`, after `norm`, are in order
+    exactly: `get` = look up under the read lock and clone; on a miss `HashSet::insert` under the write lock and a clone of
+    the requested name (`getSplit` / `writeStep false` of the model); `contains` = a lookup under the read lock.
+    Local names and punctuation are not compared (a renaming is not a change). -/
+theorem source_get_is_two_step :
+    (nameTable.filter (fun s => s.kind = "impl")).map (fun s => shape (norm s.par)) = [modelTableShape] := by
+  decide +kernel
+
+/-- `norm` erases only what it is meant to: it does not identify a hashed with an ordered collection, nor two
+    different method calls (non-vacuity of `source_par_bodies_equal_seq`) -/
+example : norm ["x", ".", "par_iter", "(", ")"] = ["x", ".", "iter", "(", ")"] := by decide
+example : norm ["HashMap"] ≠ norm ["BTreeMap"] := by decide
+example : norm [".", "insert", "(", "a", ")"] ≠ norm [".", "replace", "(", "a", ")"] := by decide
+example : allSites.length = 6 := by decide
+
+end source
 
 /-! ## non-vacuity -/
 
